@@ -313,3 +313,6 @@ def replay(rp):
     print('implementation:', impl_view(r['weighted'], obs, pres))
     print('specification verdict:', bad or 'holds')
     return 1 if bad else 0
+
+
+from . import c16f; run, replay = c16f.wrap(run, replay)   # float side of C16: Props/C16f.v + bit-exact tie of Model/ListDictF.v (harness/c16f.py)
